@@ -236,6 +236,61 @@ def oaCmplOnce : Except Bytes GenMsg → OaEv
   | .ok m => .text m.resp (nonEmpty? m.info.reason) (usageOf m.info)
   | .error e => .error e
 
+
+/-! ### Repaired variants (proposed_fixes/C17-F17ab.patch, C17-F17c.patch).
+    The pinned functions above mirror /repo; these mirror the patched code, so that switching the
+    check to the repaired behaviour is one edit (the `variant` passed by vlib/checks/c17.py). -/
+
+/-- F17a/b repaired: the whole accumulated text is parsed at every chunk, only the calls not yet
+    sent are emitted, numbered by their position. -/
+def chatCallbackFixed (parse : Bytes → List Call) : List Chunk → Bytes → Nat → List ChatMsg
+  | [], _, _ => []
+  | c :: cs, sb, idx =>
+    let res : ChatMsg := { content := c.content, calls := [], info := chunkInfo c }
+    let sb' := sb ++ c.content
+    let calls := parse sb'
+    if !calls.isEmpty && idx < calls.length then
+      { res with content := [], calls := (setIdx 0 calls).drop idx }
+        :: chatCallbackFixed parse cs sb' calls.length
+    else if c.done then
+      { res with content := if idx == 0 then sb' else c.content }
+        :: chatCallbackFixed parse cs sb' idx
+    else chatCallbackFixed parse cs sb' idx
+
+def chatStreamV (fixed : Bool) (parse : Bytes → List Call) (tools : Bool) (cs : List Chunk) (e : End) :
+    List (Item ChatMsg) :=
+  if fixed && tools then (chatCallbackFixed parse cs [] 0).map .msg ++ endItems e
+  else chatStream parse tools cs e
+
+/-- F17b repaired: the non-stream reply numbers its calls too -/
+def chatOnceV (fixed : Bool) (parse : Bytes → List Call) (tools : Bool) (cs : List Chunk) (e : End) :
+    Except Bytes ChatMsg :=
+  match chatOnce parse tools cs e with
+  | .ok m => .ok (if fixed then { m with calls := setIdx 0 m.calls } else m)
+  | .error x => .error x
+
+/-- F17c repaired: an `{"error": msg}` line (msg non-empty) becomes an error event -/
+def oaChatStreamFixed (usage : Bool) : List (Item ChatMsg) → Bool → List OaEv
+  | [], _ => []
+  | .err e :: rest, sent =>
+    if e.isEmpty then oaChatStream usage [.err e] sent ++ oaChatStreamFixed usage rest sent
+    else OaEv.error e :: oaChatStreamFixed usage rest sent
+  | .msg m :: rest, sent =>
+    oaChatStream usage [.msg m] sent ++ oaChatStreamFixed usage rest (sent || !m.calls.isEmpty)
+
+def oaCmplStreamFixed (usage : Bool) : List (Item GenMsg) → List OaEv
+  | [] => []
+  | .err e :: rest =>
+    if e.isEmpty then oaCmplStream usage [.err e] ++ oaCmplStreamFixed usage rest
+    else OaEv.error e :: oaCmplStreamFixed usage rest
+  | .msg m :: rest => oaCmplStream usage [.msg m] ++ oaCmplStreamFixed usage rest
+
+def oaChatStreamV (fixed usage : Bool) (items : List (Item ChatMsg)) : List OaEv :=
+  if fixed then oaChatStreamFixed usage items false else oaChatStream usage items false
+
+def oaCmplStreamV (fixed usage : Bool) (items : List (Item GenMsg)) : List OaEv :=
+  if fixed then oaCmplStreamFixed usage items else oaCmplStream usage items
+
 /-! ### `api.Client.stream`: messages delivered to the callback, and the returned error -/
 
 def clientView {α : Type} [Inhabited α] : List (Item α) → List α × Option Bytes
